@@ -33,6 +33,10 @@ func gen(seed int64, tier string, idx int) *pipe.Scenario {
 			sc.Topo.PipeProcs[i].Script.LatencyUs = []int{0, 50, 400, 1500}
 		}
 	}
+	if idx%8 == 6 {
+		g.FanoutUnabsorbed(sc)
+		return sc
+	}
 	switch g.R.Intn(5) {
 	case 0:
 		sc.Steps = append(sc.Steps, pipe.Step{AtEvent: 20 + g.R.Intn(300), Op: "stopwait"})
